@@ -24,7 +24,7 @@ RULE = ("all registered tunings (incl. course tunings) x every string x notes 0.
         "compositions on the non-course tunings at page widths 40..160, decoded by an own tab reader. Non-trivial: a tuning with >= 4 "
         "strings and a note reachable on >= 2 strings; a fingering query with >= 2 notes and a non-empty answer; a tab with a two-digit "
         "fret or >= 2 bars."
-        ' Also: returned notes / containers are modified before the fret table is asked again; calls that fail half-way precede fingering queries; notes carrying string / fret attributes from the same or another tuning; tracks whose own tuning differs from the one passed explicitly; one Bar object standing in two tracks of a composition that are played on different tunings; the best chord fingering returned as a container of notes (return_best_as_NoteContainer) checked through the string / fret attributes of its notes; chord entries in bars where one note carries a wished (string, fret) position.')
+        ' Also: returned notes / containers are modified before the fret table is asked again; calls that fail half-way precede fingering queries; notes carrying string / fret attributes from the same or another tuning; tracks whose own tuning differs from the one passed explicitly; one Bar object standing in two tracks of a composition that are played on different tunings; the best chord fingering returned as a container of notes (return_best_as_NoteContainer) checked through the string / fret attributes of its notes; chord entries in bars where one note carries a wished (string, fret) position (valid on this tuning, or left over from another one); the documented Am example on the standard guitar as a non-vacuity anchor for chord fingerings.')
 ASSUMPTIONS = ["tablature is rendered for tunings without courses only; empty bars / containers are not rendered",
                "the decode clause is applied when every entry gets at least (fret digits + 1) columns, measured on the rendered "
                "beat-marker line; narrower tabs still count for the equal-line-length clause",
@@ -357,12 +357,16 @@ def check_tab(ctx, case):
                 if ps and e.get("wish"):
                     # one note of the entry asks for a position of its own (string / fret attributes that are valid on this
                     # tuning): honoured or not, the entry must still read back as exactly its pitches
-                    wi, pick = e["wish"]
+                    wi, pick = e["wish"][0], e["wish"][1]
+                    stale = len(e["wish"]) > 2 and e["wish"][2]
                     wp = ps[wi % len(ps)]
-                    cands = [(s_, wp - o_) for s_, o_ in enumerate(o) if 0 <= wp - o_ <= 24]
+                    # the position is valid on this tuning - or (stale) was valid on another tuning and is left over on the note
+                    src = plain[(ti + 5 + 7 * k) % len(plain)] if stale else tt
+                    so = _open(src)
+                    cands = [(s_, wp - o_) for s_, o_ in enumerate(so) if 0 <= wp - o_ <= 24]
                     if cands:
                         s_, f_ = cands[pick % len(cands)]
-                        objs[wi % len(ps)] = tt.get_Note(s_, f_)
+                        objs[wi % len(ps)] = src.get_Note(s_, f_)
                         wished[0] = True
                 if not b.place_notes(NoteContainer(objs) if ps else None, RV.number(e["v"])):
                     break
@@ -494,7 +498,24 @@ def sub_fingering(ctx, shard, n):
     ctx.given("fingering", check_fingering, _fingering_st(), 1000 if ctx.quick else 5000)
 
 
+def check_chord_example(ctx, case):
+    """the documented example: t = get_tuning('guitar', 'standard', 6, 1); t.find_chord_fingering(NoteContainer().from_chord('Am'))
+    -> [[0, 0, 2, 2, 1, 0], [0, 3, 2, 2, 1, 0], ......]  (keeps the validity clauses from being satisfied by an empty answer)"""
+    t = TU.get_tuning("guitar", "standard", 6, 1)
+    r = ctx.ok("find_chord_fingering", t.find_chord_fingering, NoteContainer().from_chord("Am"))
+    if not failed(r):
+        ctx.check(isinstance(r, list) and [0, 0, 2, 2, 1, 0] in r and [0, 3, 2, 2, 1, 0] in r, "chord_fingering/documented-example",
+                  lambda: "Am on the standard guitar: %r ..." % (r[:4],))
+        ctx.check(isinstance(r, list) and r[:1] == [[0, 0, 2, 2, 1, 0]], "chord_fingering/documented-example", lambda: "first answer %r" % (r[:1],))
+    ctx.note_case(True, ["chord_fingering:documented-example"])
+
+
+CHECKS["chord_example"] = check_chord_example
+
+
 def sub_chord_fingering(ctx, shard, n):
+    if shard == 0:
+        ctx.enumerate("chord_example", check_chord_example, [["Am"]])
     six = [i for i, t in enumerate(_tunings()) if len(t.tuning) == 6 and not _has_courses(t)]
     roots = [l + a for l in T.LETTERS for a in ("", "#", "b")]
     shs = ["", "m", "7", "m7", "M7", "dim", "sus4", "6", "aug", "9", "m6", "7b5", "dim7", "11", "sus2"]
@@ -519,7 +540,7 @@ def _pos_st():
 def _tab_st():
     vals = st.sampled_from([[1, 0, 1, 1], [2, 0, 1, 1], [4, 0, 1, 1], [4, 0, 1, 1], [8, 0, 1, 1], [2, 1, 1, 1], [4, 1, 1, 1], [16, 0, 1, 1]])
     entry = st.fixed_dictionaries({"v": vals, "pos": st.none() | _pos_st() | _pos_st()},
-                                  optional={"wish": st.tuples(st.integers(0, 3), st.integers(0, 5)).map(list)})
+                                  optional={"wish": st.tuples(st.integers(0, 3), st.integers(0, 5), st.booleans()).map(list)})
     bar = st.fixed_dictionaries({"meter": st.sampled_from([[4, 4], [3, 4], [2, 4], [6, 8], [2, 2], [5, 4]]), "entries": st.lists(entry, min_size=1, max_size=8)})
     track = st.lists(bar, min_size=1, max_size=5)
     width = st.sampled_from([40, 60, 61, 80, 100, 120, 121, 160]) | st.integers(40, 160)
